@@ -36,13 +36,39 @@ import signal
 import sys
 from typing import Any
 
-from harness import c11_extract, common
+from harness import c11_emit, c11_extract, common
 from harness.common import Run, cbool, clist, cn, cnat, cstr, cz
-from harness.modelgen import nm, un
 
 AREA = "mxlgen"
 PROPS = "PropsC11.v"
 BIG = 2**40
+
+# ---------------------------------------------------------------------------------------
+# component names: id = k + 10000 * c  (coq/mxlgen/Corr.v: nstr)
+#   k = 0 "time"; 9001.. the parameter names of the function library ("a", "b", "c", "s1", "s2", "k":
+#   components called like the formal parameters of the functions applied to them); else "n%04d"
+#   c = a suffix that makes the name look like one of the generator's fresh names
+# ---------------------------------------------------------------------------------------
+FORMAL_NAMES = {9001: "a", 9002: "b", 9003: "c", 9004: "s1", 9005: "s2", 9006: "k"}
+FORMAL_IDS = {v: k for k, v in FORMAL_NAMES.items()}
+SUFFIXES = ["", "_1", "_2", "_1_1", "_3"]
+_NAME_RE = re.compile(r"^(time|n\d{4}|a|b|c|s1|s2|k)((?:_\d+)*)$")
+
+
+def nm(n: int) -> str:
+    k, c = n % 10000, n // 10000
+    base = "time" if k == 0 else FORMAL_NAMES.get(k) or f"n{k:04d}"
+    return base + SUFFIXES[c]
+
+
+def un(s: str) -> int:
+    mt = _NAME_RE.match(s)
+    if not mt or mt.group(2) not in SUFFIXES:
+        raise ShapeError(f"{s!r} is not a component name of this harness")
+    b = mt.group(1)
+    k = 0 if b == "time" else FORMAL_IDS.get(b) or int(b[1:])
+    return k + 10000 * SUFFIXES.index(mt.group(2))
+
 
 # ---------------------------------------------------------------------------------------
 # (1) facts
@@ -64,7 +90,8 @@ def gen() -> dict:
         "   breaks C11_facts_pinned. *)\n"
         "From MxlGen Require Import SymRepr.\n"
         f"Definition gen_mxlgen_facts : gen_facts := mkGenFacts {f['var_key']} {f['par_key']} {f['der_key']} "
-        f"{f['rxn_key']} {f['sto_key']} {f['register']} {f['codegen_shape']} {f['symrepr_shape']}.\n"
+        f"{f['rxn_key']} {f['sto_key']} {f['register']} {f['codegen_shape']} {f['symrepr_shape']} "
+        f"{f['param_check']} {f['interchange']} {f['rename']} {f['emit']}.\n"
     )
     common.write_if_changed(common.area_dir(AREA) / "GenMxlGenFacts.v", text)
     return f
@@ -103,20 +130,73 @@ _EXTRA = [
     ("a", "bad_index", 4, False),  # 20  body uses a subscript: fn_to_sympy refuses
     ("a", "<lambda>", 4, False),  # 21  a lambda is not a FunctionDef: refused
     ("x", "constant", 0, True),  # 22  mxlpy.fns.constant (what add_reaction makes of a str coefficient)
+    # --- same-named, NON-interchangeable pairs whose substituted expressions can coincide (seeded C11-2 shape);
+    #     5th entry = (arity, selection): object(x_0..) = body at [x_i for i in selection]
+    ("a", "excess", 3, True, (2, [0, 1])),  # 23  a - b
+    ("b", "excess", 3, True, (2, [1, 0])),  # 24  b - a
+    ("a", "wmix", 5, True, (3, [0, 1, 2])),  # 25  a*b + c
+    ("b", "wmix", 5, True, (3, [2, 1, 0])),  # 26  c*b + a
+    ("a", "pick", 0, True, (2, [0])),  # 27  f(a, b) = a
+    ("b", "pick", 0, True, (1, [0])),  # 28  f(a) = a          (same substituted body, other arity)
+    ("a", "dbl", 2, True, (2, [1, 1])),  # 29  b + b
+    ("b", "dbl", 2, True, (2, [0, 1])),  # 30  a + b          (equal on a repeated argument only)
+    # --- functions whose __name__ looks like a fresh name of the generator
+    ("a", "rate_1", 3, True),  # 31
+    ("a", "init_f_id_1", 6, True),  # 32
+    ("b", "excess_1", 2, True),  # 33
 ]
 N_LIB = 11
 F_CONSTANT = 22
 F_BAD = (20, 21)
-CLASH_FAMILY = [11, 12, 13, 14, 15, 16, 17, 18, 19]
+CLASH_FAMILY = [11, 12, 13, 14, 15, 16, 17, 18, 19, 31, 32]
+TWINS = [(23, 24), (25, 26), (27, 28), (29, 30)]
+STD_FORMALS = ["a", "b", "c"]
+
+
+def _extra(e: tuple) -> tuple[str, str, int, bool, int, list[int]]:
+    """-> (module tag, name, sem, ok, arity, selection)"""
+    mod, name, sem, ok = e[:4]
+    ar, sel = e[4] if len(e) > 4 else (len(BODIES[sem][0]), list(range(len(BODIES[sem][0]))))
+    return mod, name, sem, ok, ar, list(sel)
 
 
 def table() -> list[tuple[str, int, int, bool]]:
     """[(name, sem, arity, ok)] for every function object id."""
+    return [e[:4] for e in table_full()]
+
+
+def table_full() -> list[tuple[str, int, int, bool, list[int], list[int]]]:
+    """[(name, sem, arity, ok, selection, own parameter names as component ids)]"""
+    import inspect
+
     from harness import fnlib
 
-    t = [(fnlib.FNS[i].__name__, i, fnlib.ARITY[i], True) for i in range(N_LIB)]
-    t += [(name, sem, len(BODIES[sem][0]), ok) for _m, name, sem, ok in _EXTRA]
+    t = []
+    for i in range(N_LIB):
+        formals = [FORMAL_IDS[p] for p in inspect.signature(fnlib.FNS[i]).parameters]
+        t.append((fnlib.FNS[i].__name__, i, fnlib.ARITY[i], True, list(range(fnlib.ARITY[i])), formals))
+    for e in _EXTRA:
+        _m, name, sem, ok, ar, sel = _extra(e)
+        t.append((name, sem, ar, ok, sel, [FORMAL_IDS[p] for p in STD_FORMALS[:ar]]))
     return t
+
+
+def obj_sem(f: int, args: list[int]) -> int:
+    """exact meaning of function object f"""
+    from harness import fnlib
+
+    _n, sem, ar, _ok, sel, _fm = table_full()[f]
+    assert len(args) == ar
+    return fnlib.fsem(sem, [args[i] for i in sel])
+
+
+def obj_source(f: int) -> tuple[list[str], str]:
+    """(own parameter names, body text) of an object of the generated modules"""
+    _n, sem, ar, _ok, sel, _fm = table_full()[f]
+    params, body = BODIES[sem]
+    own = STD_FORMALS[:ar]
+    sub = {p: own[sel[i]] for i, p in enumerate(params)}
+    return own, re.sub(r"\b(" + "|".join(map(re.escape, params)) + r")\b", lambda m: sub[m.group(1)], body) if params else body
 
 
 class Fns:
@@ -128,10 +208,11 @@ class Fns:
         self.dir = common.scratch_dir("c11")
         self.tag = f"c11_{self.dir.name.replace('-', '_')}"
         src = {"a": ["# generated by harness/c11.py\n"], "b": ["# generated by harness/c11.py\n"]}
-        for mod, name, sem, _ok in _EXTRA:
+        for i, e in enumerate(_EXTRA):
+            mod, name, sem, _ok, _ar, _sel = _extra(e)
             if mod == "x":
                 continue
-            params, body = BODIES[sem]
+            params, body = obj_source(N_LIB + i)
             if name == "bad_index":
                 src[mod].append(f"def bad_index({', '.join(params)}):\n    return [{params[0]}][0] * {params[1]}\n\n")
             elif name == "<lambda>":
@@ -149,7 +230,8 @@ class Fns:
         from mxlpy import fns as mfns
 
         self.objs: list[Any] = list(fnlib.FNS[:N_LIB])
-        for mod, name, _sem, _ok in _EXTRA:
+        for e in _EXTRA:
+            mod, name = e[0], e[1]
             if mod == "x":
                 self.objs.append(mfns.constant)
             elif name == "<lambda>":
@@ -160,7 +242,7 @@ class Fns:
         for i, (name, sem, ar, _ok) in enumerate(table()):
             assert self.objs[i].__name__ == name, (i, name, self.objs[i].__name__)
             pt = [3, 5, 7][:ar]
-            assert self.objs[i](*pt) == fnlib.fsem(sem, pt), (i, name)
+            assert self.objs[i](*pt) == obj_sem(i, pt), (i, name)
 
     def close(self) -> None:
         try:
@@ -179,10 +261,146 @@ class Fns:
 #         "der": [(n, f, [args])], "rxn": [(n, f, [args], [(cpd, ("stat", q) | ("dyn", f, [args]) | ("named", p))])]}
 # f = function object id (index into table()); names as in harness/modelgen.py (0 = time)
 
-KINDS = ["plain", "reuse", "same_name", "prefix_init", "prefix_stoich", "dup_args", "untranslatable", "mixed"]
+KINDS = ["plain", "reuse", "same_name", "prefix_init", "prefix_stoich", "dup_args", "untranslatable", "mixed",
+         "lookalike", "formals", "twins"]
+SPECIAL = ("lookalike", "formals", "twins")
+
+
+def _place(rng, desc: dict, nxt: list[int], uses: list[tuple[int, list[int]]], variables: list[int], params: list[int]) -> None:
+    """Put every (function, argument list) of `uses` into a random kind of slot: derived, rate function,
+    computed coefficient, initial assignment of a parameter."""
+
+    def fresh() -> int:
+        nxt[0] += 1
+        return nxt[0]
+
+    for f, a in uses:
+        role = rng.choices(["der", "rxn", "sto", "iapar"], weights=[4, 3, 2, 1.5])[0]
+        if role == "iapar" and all(x in variables + params or x == 0 for x in a):
+            n = fresh()
+            desc["par"].append((n, ("ia", f, a)))
+        elif role == "rxn":
+            tv = rng.sample(variables, rng.randint(1, min(2, len(variables))))
+            desc["rxn"].append((fresh(), f, a, [(c, ("stat", rng.choice([-2, -1, 1, 2, 3]))) for c in tv]))
+        elif role == "sto":
+            tv = rng.sample(variables, rng.randint(1, min(2, len(variables))))
+            st = [(c, ("stat", rng.choice([-1, 1, 2]))) for c in tv]
+            st[0] = (st[0][0], ("dyn", f, a))
+            desc["rxn"].append((fresh(), 0, [rng.choice(variables)], st))
+        else:
+            desc["der"].append((fresh(), f, a))
+
+
+def gen_special(rng, kind: str) -> dict:
+    """The three streams aimed at the naming machinery of the generator:
+    lookalike  a repeated argument X next to components literally called X_1 / X_2 / X_1_1 (the fresh
+               parameter names _parameter_names would pick), at earlier and LATER positions;
+    formals    components called like the functions' own parameter names, passed in rotated / swapped /
+               chained order (the i-th model argument is named like a later formal parameter);
+    twins      two different functions sharing a __name__ whose substituted expressions coincide
+               (a - b on [x, y] and b - a on [y, x]; f(a, b) = a and f(a) = a on x; ...)."""
+    tab = table()
+    nxt = [10]
+
+    def fresh() -> int:
+        nxt[0] += 1
+        return nxt[0]
+
+    desc: dict[str, list] = {"par": [], "var": [], "der": [], "rxn": []}
+    vals = rng.sample([-3, -2, 2, 3, 4, 5, 7], 7)
+    variables: list[int] = []
+    params: list[int] = []
+
+    def add(n: int, as_var: bool) -> None:
+        v = ("plain", vals.pop())
+        (desc["var"] if as_var else desc["par"]).append((n, v))
+        (variables if as_var else params).append(n)
+
+    uses: list[tuple[int, list[int]]] = []
+    if kind == "lookalike":
+        x = 0 if rng.random() < 0.15 else fresh()
+        if x:
+            add(x, rng.random() < 0.7)
+        x1, x2, x11 = x + 10000, x + 20000, x + 30000
+        add(x1, rng.random() < 0.6)
+        for n in (x2, x11):
+            if rng.random() < 0.6:
+                add(n, rng.random() < 0.5)
+        other = fresh()
+        add(other, True)
+        have = variables + params
+        pats3 = [[x, x, x1], [x, x1, x], [x1, x, x], [x, x, other], [x1, x1, x11], [x, x, x2], [x, x1, x1], [x1, x, x1], [other, other, x1]]
+        pats2 = [[x, x], [x, x1], [x1, x], [x1, x1]]
+        pats3 = [p for p in pats3 if all(n in have or n == 0 for n in p)]
+        pats2 = [p for p in pats2 if all(n in have or n == 0 for n in p)]
+        for _ in range(rng.randint(1, 3)):
+            if rng.random() < 0.75:
+                uses.append((rng.choice([5, 5, 9, 10, 25, 26]), list(rng.choice(pats3))))
+            else:
+                uses.append((rng.choice([2, 3, 4, 7, 23, 24]), list(rng.choice(pats2))))
+        if rng.random() < 0.5:  # the same function once more without a repetition (shares / must not share the def)
+            f = uses[0][0]
+            pool = [n for n in have if n]
+            uses.append((f, [rng.choice(pool) for _ in range(tab[f][2])]))
+    elif kind == "formals":
+        ids = list(FORMAL_NAMES)
+        rng.shuffle(ids)
+        n_var = rng.randint(2, 3)
+        for i, n in enumerate(ids):
+            add(n, i < n_var)
+        full = table_full()
+        for _ in range(rng.randint(2, 4)):
+            f = rng.choice([2, 3, 3, 4, 5, 5, 7, 7, 9, 9, 10, 23, 24, 25, 26])
+            fm = full[f][5]
+            ar = len(fm)
+            how = rng.random()
+            if how < 0.35:  # rotation of the function's own parameter names
+                r = rng.randint(1, ar - 1)
+                a = fm[r:] + fm[:r]
+            elif how < 0.55:  # swap
+                a = list(reversed(fm))
+            elif how < 0.85:  # chain: a -> b, b -> c, ... the last one to some other name
+                others = [n for n in FORMAL_NAMES if n not in fm]
+                a = fm[1:] + [rng.choice(others)]
+            else:  # any formal names
+                a = [rng.choice(list(FORMAL_NAMES)) for _ in range(ar)]
+            uses.append((f, a))
+    else:  # twins
+        for _ in range(rng.randint(2, 3)):
+            add(fresh(), True)
+        add(fresh(), False)
+        have = variables + params
+        for fa, fb in rng.sample(TWINS, rng.randint(1, 2)):
+            if (fa, fb) == (23, 24):
+                x, y = rng.sample(have, 2)
+                pair = [(fa, [x, y]), (fb, [y, x])]
+            elif (fa, fb) == (25, 26):
+                x, y, z = rng.sample(have, 3)
+                pair = [(fa, [x, y, z]), (fb, [z, y, x])]
+            elif (fa, fb) == (27, 28):
+                x, y = rng.sample(have, 2)
+                pair = [(fa, [x, y]), (fb, [x])]
+            else:
+                x, y = rng.sample(have, 2)
+                pair = [(fa, [y, x]), (fb, [x, x])] if rng.random() < 0.5 else [(fa, [x, y]), (fb, [y, y])]
+            if rng.random() < 0.5:
+                pair.reverse()
+            uses += pair
+        if rng.random() < 0.4:
+            f = rng.choice([23, 24, 33])
+            uses.append((f, rng.sample(have, tab[f][2])))
+    rng.shuffle(uses) if kind != "twins" or rng.random() < 0.3 else None
+    _place(rng, desc, nxt, uses, variables, params)
+    if not desc["rxn"] and rng.random() < 0.7:
+        desc["rxn"].append((fresh(), 0, [rng.choice(variables)], [(rng.choice(variables), ("stat", 1))]))
+    for k in ("par", "var", "der", "rxn"):
+        rng.shuffle(desc[k])
+    return desc
 
 
 def gen_desc(rng, kind: str, max_comp: int = 7) -> dict:
+    if kind in SPECIAL:
+        return gen_special(rng, kind)
     tab = table()
     by_arity: dict[int, list[int]] = {}
     for i, (_n, _s, ar, ok) in enumerate(tab):
@@ -229,7 +447,7 @@ def gen_desc(rng, kind: str, max_comp: int = 7) -> dict:
                     f = rng.choice(twins)
         elif rng.random() < clash_p:
             fam = {
-                "same_name": [11, 18, 12, 19, 16, 2, 17, 0],
+                "same_name": [11, 18, 12, 19, 16, 2, 17, 0, 23, 24, 31, 33],
                 "prefix_init": [13, 14, 0, 2],
                 "prefix_stoich": [15, 0],
             }.get(kind, CLASH_FAMILY)
@@ -494,34 +712,14 @@ def _valref(node: ast.expr) -> tuple:
     return ("num", _num(node))
 
 
-_PARAM = re.compile(r"^(time|n\d{4})(_\d+)?$")
-
-
-def _param(name: str, seen: list[str]) -> int:
-    """Model name a def parameter stands for.  _parameter_names (repaired generator) renames the later
-    positions of a repeated model name to <name>_<i>: such a parameter stands for <name> -- but only
-    if <name> really is an earlier parameter of the same def."""
-    mt = _PARAM.match(name)
-    if not mt:
-        raise ShapeError(f"def parameter {name!r} is not a model name")
-    if mt.group(2) and mt.group(1) not in seen:
-        raise ShapeError(f"def parameter {name!r} looks renamed but {mt.group(1)!r} is not an earlier parameter")
-    return un(mt.group(1))
-
-
-def parse_source(src: str) -> tuple[list[tuple[str, list[int]]], list[tuple]]:
+def parse_source(src: str) -> tuple[list[tuple[str, list[str]]], list[tuple]]:
     """-> (defs [(name, [param names])], builder chain [op tuples]) read from the emitted TEXT."""
     tree = ast.parse(src)  # a repeated parameter is only rejected by compile(), not by the parser
     defs = []
     chain: list[tuple] = []
     for node in tree.body:
         if isinstance(node, ast.FunctionDef) and node.name != "create_model":
-            seen: list[str] = []
-            ps = []
-            for a in node.args.args:
-                ps.append(_param(a.arg, seen))
-                seen.append(a.arg)
-            defs.append((node.name, ps))
+            defs.append((node.name, [a.arg for a in node.args.args]))  # parameter names AS WRITTEN
         elif isinstance(node, ast.FunctionDef):
             ret = node.body[-1]
             if not isinstance(ret, ast.Return) or ret.value is None:
@@ -667,7 +865,14 @@ def oracle(desc: dict, r: dict, states) -> str | None:
 
 
 def coq_table() -> str:
-    return "Definition T : ftab := " + clist(f"mkF {cstr(n)} {cn(s)} {cnat(ar)} {cbool(ok)}" for n, s, ar, ok in table()) + ".\n"
+    return (
+        "Definition T : ftab := "
+        + clist(
+            f"mkFent {cstr(n)} {cn(s)} {cnat(ar)} {cbool(ok)} {clist(map(cnat, sel))} {clist(map(cn, fm))}"
+            for n, s, ar, ok, sel, fm in table_full()
+        )
+        + ".\n"
+    )
 
 
 def coq_model(desc: dict) -> str:
@@ -717,7 +922,7 @@ def coq_op(op: tuple) -> str:
 
 def coq_case(desc: dict, r: dict) -> str:
     tag = r["tag"] if r["tag"] in (0, 1, 2, 3, 4) else 5
-    defs = clist(f"({cstr(n)}, {clist(map(cn, ps))})" for n, ps in r["defs"])
+    defs = clist(f"({cstr(n)}, {clist(map(cstr, ps))})" for n, ps in r["defs"])
     ops = clist(coq_op(o) for o in r["chain"])
     pts = clist(clist(f"({clist(map(cz, a))}, {cz(v)})" for a, v in p) for p in r["pts"])
     if r["obs"] is None:
@@ -796,6 +1001,25 @@ CORPUS = [
     {"par": [(11, ("plain", 2))], "var": [(12, ("plain", 3))], "der": [(13, 20, [12, 11])], "rxn": []},
     {"par": [(11, ("plain", 2))], "var": [(12, ("plain", 3))], "der": [], "rxn": [(13, 4, [12, 11], [(12, ("dyn", 21, [11, 11]))])]},
     {"par": [(11, ("plain", 2))], "var": [(12, ("plain", 3))], "der": [(13, 2, [12])], "rxn": []},
+    # a repeated argument next to a component called like the first fresh parameter name, at a LATER position
+    # (n0011, n0011, n0011_1): the def must not call its second parameter n0011_1   [shape of seeded change C11-1]
+    {"par": [(13, ("plain", 2))], "var": [(11, ("plain", 2)), (10011, ("plain", 5)), (12, ("ia", 0, [13]))],
+     "der": [(14, 5, [11, 11, 10011]), (15, 5, [12, 11, 10011])],
+     "rxn": [(16, 9, [11, 11, 10011], [(11, ("stat", -2)), (12, ("stat", 1))])]},
+    # ... also when the candidate after it is taken (n0011_1 and n0011_2 exist) and for "time"
+    {"par": [(10011, ("plain", 3)), (20011, ("plain", 7))], "var": [(11, ("plain", 2)), (10000, ("plain", 4))],
+     "der": [(14, 10, [11, 11, 20011]), (15, 5, [11, 10011, 11]), (17, 5, [0, 0, 10000])],
+     "rxn": [(16, 5, [10011, 10011, 20011], [(11, ("stat", 1))]), (18, 0, [11], [(10000, ("stat", 1))])]},
+    # two different functions called `excess` (a - b, b - a) applied to (x, y) and (y, x): the substituted
+    # expressions are both x - y, the positional functions differ: two defs   [shape of seeded change C11-2]
+    {"par": [(13, ("plain", 3))], "var": [(11, ("plain", 5)), (12, ("plain", 2))],
+     "der": [(14, 23, [11, 12]), (15, 24, [12, 11])],
+     "rxn": [(16, 4, [13, 14], [(11, ("stat", -1)), (12, ("stat", 1))]), (17, 4, [13, 15], [(11, ("dyn", 27, [13, 12])), (12, ("dyn", 28, [13]))])]},
+    # components a, b, c; f_sub(a, b) used with [a, b], [b, c], [c, a]: model names that are the function's own
+    # parameter names at OTHER positions must be put in simultaneously   [shape of seeded change C11-3]
+    {"par": [(9006, ("plain", 2))], "var": [(9001, ("plain", 2)), (9002, ("plain", 7)), (9003, ("ia", 0, [9006]))],
+     "der": [(11, 3, [9001, 9002]), (12, 3, [9002, 9003]), (13, 3, [9003, 9001]), (14, 5, [9002, 9003, 9001])],
+     "rxn": [(15, 9, [9002, 9006, 9001], [(9001, ("stat", -1)), (9002, ("dyn", 7, [9002, 9001]))])]},
 ]
 
 
@@ -822,7 +1046,10 @@ def describe(desc: dict) -> dict:
 
     def fn(f):
         mod = "harness.fnlib" if f < N_LIB else {"a": "moda", "b": "modb", "x": "mxlpy.fns"}[_EXTRA[f - N_LIB][0]]
-        params, body = BODIES[tab[f][1]]
+        if f < N_LIB:
+            params, body = BODIES[tab[f][1]]
+        else:
+            params, body = obj_source(f)
         return f"{mod}.{tab[f][0]}({', '.join(params)}) = {body}"
 
     return {"functions": {str(s["f"]): fn(s["f"]) for s in slots_of(desc)}}
@@ -836,6 +1063,9 @@ FINDING_TEXT = {
     "C11-same-name-collapse": "two different functions sharing a __name__ collapse into one emitted def: the rebuilt model silently computes the wrong function",
     "C11-prefix-collision": "a function literally named init_<f> / <rxn>_stoich_<f> collides with the generated key of another slot: the rebuilt model silently computes the wrong function",
     "C11-duplicate-argument": "a component passing the same model name twice makes the emitted def repeat a parameter: generation succeeds, the generated source is a SyntaxError",
+    c11_emit.FIND_NUM: "plain numbers are written with 15 significant digits: the rebuilt model has different initial values / parameter values / stoichiometric coefficients",
+    c11_emit.FIND_MATH: "a function whose translation refers to the math module is emitted without `import math`: generation succeeds, the rebuilt model raises NameError when queried",
+    c11_emit.FIND_UNITS: "a variable / parameter with a unit is emitted as add_variable(.., value=.., unit=<bare name>): generation succeeds, the generated source raises TypeError / NameError",
 }
 
 
@@ -847,8 +1077,14 @@ def check(run: Run) -> None:
         "models: 2-6 parameters/variables + 2-7 derived/reactions/initial assignments (acyclic, complete), functions drawn "
         "from harness/fnlib.py and two generated modules with clashing __name__s; streams: plain, one function reused under "
         "different argument lists, same-name twins, init_/<rxn>_stoich_ prefix collisions, duplicate arguments, refused "
-        "functions (subscript, lambda, wrong arity), mixed; hand-written corpus first.  A case is non-trivial if it has >=1 "
-        "function slot; distinct by content.  Cases whose values leave |v|<2^40 are discarded and counted."
+        "functions (subscript, lambda, wrong arity), mixed; lookalike (a repeated argument next to components literally called "
+        "<x>_1 / <x>_2 / <x>_1_1, the fresh parameter names of the generator, at earlier and later positions), formals "
+        "(components called like the functions' own parameter names, passed rotated / swapped / chained), twins (different "
+        "same-named functions whose substituted expressions coincide: a-b on (x,y) with b-a on (y,x), other arity, equal on a "
+        "repeated argument only); hand-written corpus (incl. the shapes of seeded changes C11-1..3) first.  A case is non-trivial "
+        "if it has >=1 function slot; distinct by content.  Cases whose values leave |v|<2^40 are discarded and counted.  "
+        "Emitted-text stream (own rng, oracle only): models of non-short binary64 numbers (stored values compared with ==), "
+        "functions translated to math.* and units (generation raises, or the source rebuilds the same values and units)."
     )
     proofs_ok = run.check_proofs(AREA, PROPS)
     if facts.get("register") == "RegFresh":
@@ -870,7 +1106,11 @@ def check(run: Run) -> None:
         "Model.add_* as id check + append; queries of the rebuilt model through Core's create_cache/get_args/get_fluxes/get_rhs model (C01/C13)",
         "fact extractor harness/c11_extract.py (fail-closed ast matcher, body shapes in harness/c11_shapes.py)",
         "correspondence harness: reader of the emitted text (ast), literal printer, coqc output parser",
-        "not modelled: units, surrogates/readouts/data (not emitted by the real code), names that are not Python identifiers",
+        "not modelled: units, binary64 numbers that are not small integers, math.* in function bodies (the Z-valued model takes a written number "
+        "for the number; which printer the tree uses is the regenerated fact gf_emit; these parts are judged by the oracle of harness/c11_emit.py only), "
+        "surrogates/readouts/data (not emitted by the real code), names that are not Python identifiers",
+        "_parameter_names is modelled on strings (SymRepr.parameter_names) and compared text for text with the emitted parameter lists; "
+        "CPython binding the parameters of a def left to right is [sbind]",
     ]
 
     rng = common.rng_for(run.seed, "c11")
@@ -886,8 +1126,8 @@ def _run_cases(run: Run, rng, fns: Fns, thorough: bool, proofs_ok: bool) -> None
     # there; after the repair they are ordinary cases, so a reappearance is reported with exactly these inputs)
     cases: list[tuple[str, dict]] = [("corpus", _tupled(d)) for d in CORPUS]
     cases += [("witness", _tupled(d)) for d in WITNESSES.values()]
-    n_random = 2400 if thorough else 260
-    weights = [3, 3, 2, 1.5, 1.5, 1.5, 1.5, 2]
+    n_random = 2800 if thorough else 320
+    weights = [3, 3, 2, 1.5, 1.5, 1.5, 1.5, 2, 2, 2, 2]
     for _ in range(n_random):
         kind = rng.choices(KINDS, weights=weights)[0]
         cases.append((kind, gen_desc(rng, kind, max_comp=9 if (thorough and rng.random() < 0.2) else 6)))
@@ -982,6 +1222,43 @@ def _run_cases(run: Run, rng, fns: Fns, thorough: bool, proofs_ok: bool) -> None
                 {"kind": "roundtrip", "desc": desc, "stream": kind, "states": [[t, sorted(s.items())] for t, s in all_states[idx]],
                  "what": bad, "outside_recorded_guards": sorted(gv), "readable": describe(desc), "source": results[idx]["src"]},
             )
+    # the text around the definitions: plain binary64 numbers, math imports, units (oracle only)
+    emod = c11_emit.Mod()
+    try:
+        erng = common.rng_for(run.seed, "c11-emit")
+        especs = [dict(w) for w in c11_emit.WITNESSES.values()] + c11_emit.gen_specs(erng, 500 if thorough else 90)
+        esub: dict[str, int] = {}
+        efail = 0
+        for spec in especs:
+            bad, src = c11_emit.run_spec(spec, emod)
+            run.count_case(spec, nontrivial=True)
+            esub[spec["sub"]] = esub.get(spec["sub"], 0) + 1
+            if not bad:
+                continue
+            efail += 1
+            fid = c11_emit.finding_of(spec)
+            if fid in recorded:
+                known_counts[fid] = known_counts.get(fid, 0) + 1
+                continue
+            if n_viol < 6:
+                n_viol += 1
+                run.violation(
+                    f"round trip through generate_mxlpy_code ({spec['sub']}): {bad}",
+                    {"kind": "emit", "spec": spec, "what": bad, "source": src},
+                )
+        run.coverage["input_distribution"]["emitted_text_cases"] = esub
+        run.coverage["input_distribution"]["emitted_text_failures_before_classification"] = efail
+        for f in common.load_known_findings("C11"):
+            w = f.get("witness", {})
+            if w.get("kind") != "emit":
+                continue
+            bad, _src = c11_emit.run_spec(w["spec"], emod)
+            if bad:
+                run.known(f.get("id"), f"{FINDING_TEXT.get(f.get('id'), f.get('what_fails', ''))} [{bad[:160]}]")
+            else:
+                run.note(f"recorded finding {f.get('id')} no longer reproduces on its witness")
+    finally:
+        emod.close()
     run.coverage["failures_matching_recorded_findings"] = known_counts
     # a correspondence mismatch with no oracle failure: look at the mismatching cases' neighbourhood is
     # already covered (the oracle ran on every case); Run.finish reports it as no-failing-input-found
@@ -1006,6 +1283,16 @@ def _run_cases(run: Run, rng, fns: Fns, thorough: bool, proofs_ok: bool) -> None
 
 def replay(rep: dict) -> int:
     r = rep["replay"]
+    if r.get("kind") == "emit":
+        common.quiet_impl_logging()
+        emod = c11_emit.Mod()
+        try:
+            bad, src = c11_emit.run_spec(r["spec"], emod)
+            print("generated source:\n", src)
+            print("oracle:", bad or "property holds on this input")
+            return 1 if bad else 0
+        finally:
+            emod.close()
     if r.get("kind") != "roundtrip":
         print("nothing to replay: ", rep.get("what"))
         return 1
